@@ -177,7 +177,7 @@ fn template_line(rng: &mut Rng, vocab: &[String]) -> String {
         }
     };
     let cs = |rng: &mut Rng| vocab[rng.below(vocab.len())].clone();
-    match rng.below(40) {
+    match rng.below(41) {
         0 => format!("\\count{}={} ", num(rng), num(rng)),
         1 => format!("\\catcode{}={} ", num(rng), num(rng)),
         2 => format!("\\dimen{}={} ", num(rng), dim(rng)),
@@ -233,6 +233,14 @@ fn template_line(rng: &mut Rng, vocab: &[String]) -> String {
         }
         30..=34 => boundary_walk(rng),
         35 | 36 => error_storm(rng),
+        39 => [
+            "\\newIntArray\\xj 3 \\let\\xk=\\xj \\xk 0=1 \\the\\xk 0 ", "\\newIntArray\\xj 3 \\xj 3=1 ", "\\newIntArray\\xj 3 \\xj -1=1 ",
+            "\\newIntArray\\xj 0 \\xj 0=1 ", "\\newIntArray\\xj -1 ", "\\newIntArray\\xj ", "\\newIntArray 3 ", "\\newIntArray~ 2 ~1=5 \\the~1 ",
+            "\\newInt\\xi \\let\\xk=\\xi \\xk=5 \\the\\xk ", "\\newInt~ ~=5 ", "{\\newIntArray\\xj 2 }\\xj 0=1 ", "\\newIntArray\\xj 2 \\the\\xj 5 ",
+            "\\newIntArray\\xj 2 \\advance\\xj 1 by 3 \\the\\xj 1 ", "\\newIntArray\\xj 2 \\countdef\\xj=3 \\xj=1 ", "\\newIntArray\\count 2 \\count 1=3 ",
+            "\\dumpFormat=0 \\dump ", "\\dumpFormat=1 \\dump \\dump ", "\\dumpFormat=2 \\dumpValidate=1 \\dump ", "{\\iftrue \\dumpValidate=1 \\dump ",
+        ][rng.below(19)]
+        .to_string(),
         38 => {
             // macro tracing with long and multi-byte arguments and expansions
             let mut arg = String::new();
@@ -518,7 +526,7 @@ impl Property for C09 {
         if run_index % 3 != 0 {
             let nd = 1 + rng.below(3);
             for _ in 0..nd {
-                match rng.below(6) {
+                match rng.below(7) {
                     0 | 1 | 2 => {
                         let i = rng.below(out.len());
                         out[i] = damage_text(&mut rng, &out[i].clone(), &mut damage, &format!("main line {i}"));
@@ -544,6 +552,12 @@ impl Property for C09 {
                                 env.unreadable.push((name, k));
                             }
                         }
+                    }
+                    5 if rng.chance(1, 2) => {
+                        let k = rng.below(3) as u64;
+                        let f = [IoFault::NoSpace, IoFault::Eio, IoFault::PermissionDenied][rng.below(3)];
+                        env.fs_write_faults.push((k, f));
+                        damage.push(format!("write {k} to the disk fails with {f:?}"));
                     }
                     _ => {
                         if rng.chance(1, 2) {
@@ -671,6 +685,7 @@ impl Property for C09 {
                 "duplicate" => "line_duplicated",
                 "file" => "file_missing_or_unreadable",
                 "terminal" => "terminal_exhausted_or_failing",
+                "write" => "disk_write_fails",
                 _ => "other",
             }));
         }
